@@ -275,3 +275,16 @@ PROPS["C13"] = dict(
         R("C13.swarm_cancel", "hubs", "TestC13SwarmCancel", 120, 6000, quick=dict(checks=120, shards=4, timeout=600)),
     ],
 )
+
+PROPS["C14"] = dict(
+    level="exploration",
+    technique="property-based testing (rapid) of contention-heavy generated workloads in binaries built with the Go race detector; oracle: race reports with library frames, callback buffer stability, C01 ledger",
+    level_text="Generated stacks and goroutine mixes hammer every API method concurrently in -race builds; the race detector decides the memory-model part, self-checking callbacks decide buffer ownership, the ledger decides that recycled buffers never leak old contents. Holds on the interleavings that occurred.",
+    level_note="The race detector only reports races that actually occur in an executed interleaving. Reports whose stacks lie entirely in third-party packages are logged in the evidence, not counted.",
+    design_ref="4/C14",
+    assumptions=["a data race is attributed to the library when a stack of the report has a frame under go.brendoncarroll.net/p2p/"],
+    subs=[
+        R("C14.contention_workloads", "swarms", "TestC14Stress", 48, 1200, race=True, shrink=5, quick=dict(checks=48, shards=6, timeout=900)),
+        R("C14.kademlia_concurrent", "kad", "TestC14Cache", 10, 300, race=True, shrink=5),
+    ],
+)
